@@ -28,14 +28,17 @@ type RTap struct {
 	// with ErrInjected (a Read starting at the offset fails at once). FailOnce lets later reads continue.
 	FailAt   int
 	FailOnce bool
-	failed   bool
-	Calls    int // maintained by the harness: index of the API call in progress
-	Log      []ReadRec
-	KeepLog  bool
-	NReads   int
-	MinGot   int
-	MaxGot   int
-	Seeks    []int64
+	// FailWithData: the Read that crosses FailAt returns the bytes before it together with ErrInjected (n>0 and an error in one
+	// call, which io.Reader allows); later Reads fail with (0, ErrInjected) unless FailOnce.
+	FailWithData bool
+	failed       bool
+	Calls        int // maintained by the harness: index of the API call in progress
+	Log          []ReadRec
+	KeepLog      bool
+	NReads       int
+	MinGot       int
+	MaxGot       int
+	Seeks        []int64
 	// EOFWithData: the Read that delivers the last bytes returns them together with io.EOF (allowed by io.Reader; network bodies of
 	// known length and iotest.DataErrReader behave so). ZeroEvery k>0: every k-th Read returns (0, nil) ("nothing happened").
 	EOFWithData bool
@@ -92,11 +95,17 @@ func (t *RTap) read(p []byte) (int, error) {
 	if rem := len(t.Data) - t.Pos; n > rem {
 		n = rem
 	}
+	withErr := false
 	if t.FailAt >= 0 && t.Pos < t.FailAt && t.Pos+n > t.FailAt && !(t.FailOnce && t.failed) {
 		n = t.FailAt - t.Pos
+		withErr = t.FailWithData
 	}
 	copy(p, t.Data[t.Pos:t.Pos+n])
 	t.Pos += n
+	if withErr {
+		t.failed = true
+		return n, ErrInjected
+	}
 	if t.EOFWithData && t.Pos >= len(t.Data) {
 		return n, io.EOF
 	}
